@@ -129,6 +129,13 @@ def parse_sidecar(path):
             continue
         ind = len(ln) - len(ln.lstrip(' '))
         if ind == 0:
+            if s.startswith('impl '):
+                # `impl <file> :: <impl header>`: items (directive `extra`) emitted INSIDE that impl block
+                key = 'impl ' + ' :: '.join(p.strip() for p in s[5:].split(' :: '))
+                cur = Contract(key, path, i + 1)
+                contracts.append(cur)
+                i += 1
+                continue
             if s.startswith('fn '):
                 key = ' :: '.join(p.strip() for p in s[3:].split(' :: '))
                 cur = Contract(key, path, i + 1)
